@@ -216,6 +216,14 @@ func verifNote(msg string, vals ...interface{}) {
 // the code under test started; the executor runs queued goroutines itself.
 var verifBackgroundDone func() bool
 
+// verifJanitorCycle: one cleanup cycle of the janitor goroutine(s) the constructors started. Natively
+// the real janitors run (the harness configures a 1ms job interval) and get 60ms; the clock they read
+// is the harness clock, so repeated cycles are idempotent.
+func verifJanitorCycle() int {
+	time.Sleep(60 * time.Millisecond)
+	return -1
+}
+
 func verifRunBackground() {
 	deadline := time.Now().Add(3 * time.Second)
 	for verifBackgroundDone != nil && !verifBackgroundDone() && time.Now().Before(deadline) {
